@@ -391,6 +391,8 @@ type fileWork struct {
 	src    []byte
 	edits  []edit
 	yields bool
+	// keepSync: a "var _ sync.Once" was appended because a rewrite may have removed the file's last use of the import
+	keepSync bool
 }
 
 func (fw *fileWork) off(p token.Pos) int { return fset.Position(p).Offset }
@@ -644,6 +646,7 @@ func (fw *fileWork) auditSyncUses() {
 			if pn, ok := fw.pi.info.Uses[id].(*types.PkgName); ok && pn.Imported().Path() == "sync" {
 				switch sel.Sel.Name {
 				case "OnceFunc", "OnceValue", "OnceValues", "NewCond":
+					// (a rewritten sync.OnceValue(f) call never gets here: see the rewritten[] test above)
 					unsupported = append(unsupported, fmt.Sprintf("%s: sync.%s", fset.Position(sel.Pos()), sel.Sel.Name))
 				}
 			}
@@ -660,6 +663,21 @@ func (fw *fileWork) rewriteSyncCall(c *ast.CallExpr) {
 	if !ok {
 		return
 	}
+	if id, ok := sel.X.(*ast.Ident); ok {
+		if pn, ok := fw.pi.info.Uses[id].(*types.PkgName); ok && pn.Imported().Path() == "sync" {
+			switch sel.Sel.Name {
+			case "OnceFunc", "OnceValue", "OnceValues":
+				// sync.OnceValue(f) -> verifSimOnceValue(f): same contract, built on a gated sync.Once
+				rewritten[sel] = true
+				fw.edits = append(fw.edits, edit{off: fw.off(sel.Pos()), end: fw.off(sel.End()), text: "verifSim" + sel.Sel.Name, prio: 1})
+				if !fw.keepSync {
+					fw.keepSync = true
+					fw.edits = append(fw.edits, edit{off: len(fw.src), end: len(fw.src), text: "\nvar _ " + id.Name + ".Once\n", prio: 1})
+				}
+			}
+			return
+		}
+	}
 	s := fw.pi.info.Selections[sel]
 	if s == nil || s.Kind() != types.MethodVal {
 		return
@@ -671,6 +689,12 @@ func (fw *fileWork) rewriteSyncCall(c *ast.CallExpr) {
 	full := fn.FullName()
 	var helper string
 	switch full {
+	case "(*sync.Mutex).TryLock":
+		helper = "verifSimMutexTryLock"
+	case "(*sync.RWMutex).TryLock":
+		helper = "verifSimRWTryLock"
+	case "(*sync.RWMutex).TryRLock":
+		helper = "verifSimRWTryRLock"
 	case "(*sync.Once).Do":
 		helper = "verifSimOnceDo"
 	case "(*sync.Mutex).Lock":
@@ -688,7 +712,7 @@ func (fw *fileWork) rewriteSyncCall(c *ast.CallExpr) {
 	default:
 		if fn.Pkg() != nil && fn.Pkg().Path() == "sync" {
 			switch fn.Name() {
-			case "Wait", "Signal", "Broadcast", "TryLock", "TryRLock", "Add", "Done":
+			case "Wait", "Signal", "Broadcast", "Add", "Done":
 				unsupported = append(unsupported, fmt.Sprintf("%s: %s", fset.Position(c.Pos()), full))
 			}
 		}
@@ -810,7 +834,26 @@ func main() {
 					hot := funcIsHot(pi, fd.Body)
 					(&subWalker{fw: fw}).run(fd.Body, name, hot)
 				}
-				// package-level initialisers may contain function literals too: left alone
+				// package-level initialisers: function literals get yields, sync calls their gates
+				for _, d := range f.Decls {
+					gd, ok := d.(*ast.GenDecl)
+					if !ok || gd.Tok != token.VAR {
+						continue
+					}
+					for _, sp := range gd.Specs {
+						vs, ok := sp.(*ast.ValueSpec)
+						if !ok {
+							continue
+						}
+						for k, v := range vs.Values {
+							name := "init"
+							if k < len(vs.Names) {
+								name = "init." + vs.Names[k].Name
+							}
+							fw.walk(v, name, false)
+						}
+					}
+				}
 				fw.auditSyncUses()
 			}
 			if len(fw.edits) == 0 {
@@ -1058,6 +1101,9 @@ var (
 	VerifSimYield   func(site int)
 	VerifSimOnceDo  func(o *sync.Once, f func())
 	VerifSimMutex   func(m unsafe.Pointer, kind int) // kind: 0 Lock, 1 Unlock, 2 RLock, 3 RUnlock
+	// VerifSimTry decides TryLock (kind 0) / TryRLock (kind 2) in the scheduler's
+	// model of the mutex: 0 refused, 1 granted (the real call must then succeed), 2 scheduler inactive.
+	VerifSimTry func(m unsafe.Pointer, kind int) int
 )
 
 type VerifSite struct {
@@ -1130,6 +1176,54 @@ func verifSimRWRUnlock(m *sync.RWMutex) {
 	m.RUnlock()
 	if h := VerifSimMutex; h != nil {
 		h(unsafe.Pointer(m), 3)
+	}
+}
+
+func verifSimTry(m unsafe.Pointer, kind int, real func() bool) bool {
+	h := VerifSimTry
+	if h == nil {
+		return real()
+	}
+	switch h(m, kind) {
+	case 0:
+		return false
+	case 1:
+		if !real() {
+			panic("verif: the scheduler's model of a mutex and the real mutex disagree")
+		}
+		return true
+	}
+	return real()
+}
+
+func verifSimMutexTryLock(m *sync.Mutex) bool { return verifSimTry(unsafe.Pointer(m), 0, m.TryLock) }
+func verifSimRWTryLock(m *sync.RWMutex) bool  { return verifSimTry(unsafe.Pointer(m), 0, m.TryLock) }
+func verifSimRWTryRLock(m *sync.RWMutex) bool { return verifSimTry(unsafe.Pointer(m), 2, m.TryRLock) }
+
+// verifSimOnceFunc / OnceValue / OnceValues stand in for the sync functions of the
+// same name, built on a gated sync.Once so that the scheduler controls blocking.
+// (A panic in f is not re-raised by later calls, unlike the originals.)
+func verifSimOnceFunc(f func()) func() {
+	var once sync.Once
+	return func() { verifSimOnceDo(&once, f) }
+}
+
+func verifSimOnceValue[T any](f func() T) func() T {
+	var once sync.Once
+	var r T
+	return func() T {
+		verifSimOnceDo(&once, func() { r = f() })
+		return r
+	}
+}
+
+func verifSimOnceValues[T1, T2 any](f func() (T1, T2)) func() (T1, T2) {
+	var once sync.Once
+	var r1 T1
+	var r2 T2
+	return func() (T1, T2) {
+		verifSimOnceDo(&once, func() { r1, r2 = f() })
+		return r1, r2
 	}
 }
 
@@ -1212,6 +1306,54 @@ func verifSimRWRUnlock(m *sync.RWMutex) {
 	m.RUnlock()
 	if h := field.VerifSimMutex; h != nil {
 		h(unsafe.Pointer(m), 3)
+	}
+}
+
+func verifSimTry(m unsafe.Pointer, kind int, real func() bool) bool {
+	h := field.VerifSimTry
+	if h == nil {
+		return real()
+	}
+	switch h(m, kind) {
+	case 0:
+		return false
+	case 1:
+		if !real() {
+			panic("verif: the scheduler's model of a mutex and the real mutex disagree")
+		}
+		return true
+	}
+	return real()
+}
+
+func verifSimMutexTryLock(m *sync.Mutex) bool { return verifSimTry(unsafe.Pointer(m), 0, m.TryLock) }
+func verifSimRWTryLock(m *sync.RWMutex) bool  { return verifSimTry(unsafe.Pointer(m), 0, m.TryLock) }
+func verifSimRWTryRLock(m *sync.RWMutex) bool { return verifSimTry(unsafe.Pointer(m), 2, m.TryRLock) }
+
+// verifSimOnceFunc / OnceValue / OnceValues stand in for the sync functions of the
+// same name, built on a gated sync.Once so that the scheduler controls blocking.
+// (A panic in f is not re-raised by later calls, unlike the originals.)
+func verifSimOnceFunc(f func()) func() {
+	var once sync.Once
+	return func() { verifSimOnceDo(&once, f) }
+}
+
+func verifSimOnceValue[T any](f func() T) func() T {
+	var once sync.Once
+	var r T
+	return func() T {
+		verifSimOnceDo(&once, func() { r = f() })
+		return r
+	}
+}
+
+func verifSimOnceValues[T1, T2 any](f func() (T1, T2)) func() (T1, T2) {
+	var once sync.Once
+	var r1 T1
+	var r2 T2
+	return func() (T1, T2) {
+		verifSimOnceDo(&once, func() { r1, r2 = f() })
+		return r1, r2
 	}
 }
 
